@@ -17,9 +17,14 @@ def gen_case(rng, transport):
         m = iface + b".M%d" % mi
         k = rng.choice([0, 0, 1, 2, 3, 10, 50]) if mi == 0 else rng.choice([0, 1, 2])
         vals = [rng.choice(["N", "{}", J.rand_object(rng, 3), J.rand_object(rng, 2), J.rand_object(rng, 3, maps=False)]) for _ in range(k + 1)]
+        if rng.random() < 0.12:
+            # frames around and beyond the read buffer's size (4096) and the socket buffer's (64 KiB and more)
+            vals[rng.randrange(len(vals))] = "{70:S%s;,6e:D31;}" % (b"r" * rng.choice([4000, 4080, 4097, 9000, 70000])).hex()
         steps = [S.Step("r", "e", cont=(j < k), val=v) for j, v in enumerate(vals)]
         secs.append(S.script_text(m, steps, False))
         params = rng.choice(["-", "{}", J.rand_object(rng, 3), J.rand_object(rng, 3), J.rand_object(rng, 4, maps=False)])
+        if rng.random() < 0.12:
+            params = "{71:S%s;}" % (b"q" * rng.choice([4000, 4060, 4097, 9000, 70000])).hex()
         more = k > 0 or rng.random() < 0.2
         ops.append("call %d %s %s %d" % (1 if more else 0, m.hex(), params, k + 1))
         expect.append((params, vals, more))
@@ -54,7 +59,7 @@ def conc_case(rng, n_conn):
 def main(pid, argv):
     ck = V.Check(pid, argv)
     ck.rule = ("cases: real client <-> real service; call parameters and reply parameters are generated JSON objects (nested arrays/objects/Go maps, integers "
-               "beyond 2^53, exponents, empty objects, null members, unicode, control and invalid-UTF-8 strings); more-sequences of length 0..50; transports "
+               "beyond 2^53, exponents, empty objects, null members, unicode, control and invalid-UTF-8 strings, frames of 4 KiB - 70 KiB); more-sequences of length 0..50; transports "
                "filesystem unix socket, abstract unix socket, TCP loopback, bridge subprocess; plus 16-48 connections served at once, each receiving different replies "
                "of 100 B - 70 KiB (integers above 2^53, unicode). distinct = distinct case lines; non-trivial = a call with non-empty parameters")
     ck.assumptions = ["strings that are not valid UTF-8 are excluded from the JSON-equality oracle (Go replaces invalid bytes by U+FFFD: stated hypothesis utf8_valid); they are still compared with the model",
